@@ -526,8 +526,8 @@ def reclaim_window_clients(rng, msgb, total):
     """A holds the token; B asks (A gets CHN_RECLAIM_REQ) and A deliberately does not answer for d ms; inside that window C asks
     too (or B asks again); then A confirms / returns.  Nobody withdraws inside the window, so finding F14 is not in reach."""
     m, T = msgb, msgb.T
-    d = rng.choice([300, 450, 700])
-    t_b = rng.choice([400, 500])
+    d = rng.choice([250, 400, 600])
+    t_b = rng.choice([350, 450])
     x = rng.choice([40, 100, d // 2, d - 120])
     clients = []
 
@@ -544,11 +544,11 @@ def reclaim_window_clients(rng, msgb, total):
             a_ops.append(_send(m.raw(T['CHN_RECLAIM_CNF'], b''), t='CHN_RECLAIM_CNF'))
         else:
             a_ops.append(_send(m.raw(T['CHN_NOTIFY_REQ'], m.notify_req(2)), t='CHN_NOTIFY_REQ', rel=True))
-        a_ops += [['r', 400], ['x']]
+        a_ops += [['r', 250], ['x']]
         clients.append({'kind': 'raw', 'name': 'A', 'delay_ms': 150, 'ops': a_ops})
     else:
         clients.append({'kind': 'lib', 'name': 'A', 'delay_ms': 150,
-                        'ops': [['C', pref.VPS, 0, 5, 0], ['O', 0], ['G', 0], ['Q', 1, 0x10, 0, 1], ['T', t_b - 150 + d], ['H', 2], ['T', 400], ['D']]})
+                        'ops': [['C', pref.VPS, 0, 5, 0], ['O', 0], ['G', 0], ['Q', 1, 0x10, 0, 1], ['T', t_b - 150 + d], ['H', 2], ['T', 250], ['D']]})
 
     def asker(name, sub, t_req, again=None):
         if rng.random() < 0.5:
@@ -556,15 +556,15 @@ def reclaim_window_clients(rng, msgb, total):
                    ['Q', 1, sub, 0, 1]]
             if again:
                 ops += [['T', again], ['Q', 1, sub, 0, 1]]
-            ops += [['W', d + 600], ['T', 100], ['H', 1], ['T', 200], ['D']]
+            ops += [['W', d + 400], ['T', 60], ['H', 1], ['T', 120], ['D']]
             return {'kind': 'lib', 'name': name, 'delay_ms': 0, 'ops': ops}
         ops = [['c'], con(name.encode(), pref.VPS), ['w', T['CONNECT_CNF'], 1000],
                _send(m.raw(T['CHN_TOKEN_REQ'], m.token_req(1, 0, 0, 0)), t='CHN_TOKEN_REQ', ask=False, rel=True), ['r', t_req - 20],
                _send(m.raw(T['CHN_TOKEN_REQ'], m.token_req(1, 1, sub, 0)), t='CHN_TOKEN_REQ', ask=True, rel=True)]
         if again:
             ops += [['r', again], _send(m.raw(T['CHN_TOKEN_REQ'], m.token_req(1, 1, sub, 0)), t='CHN_TOKEN_REQ', ask=True, rel=True)]
-        ops += [['w', T['CHN_TOKEN_IND'], d + 600], ['r', 100],
-                _send(m.raw(T['CHN_NOTIFY_REQ'], m.notify_req(1)), t='CHN_NOTIFY_REQ', rel=True, release=True), ['r', 200], ['x']]
+        ops += [['w', T['CHN_TOKEN_IND'], d + 400], ['r', 60],
+                _send(m.raw(T['CHN_NOTIFY_REQ'], m.notify_req(1)), t='CHN_NOTIFY_REQ', rel=True, release=True), ['r', 120], ['x']]
         return {'kind': 'raw', 'name': name, 'delay_ms': 0, 'ops': ops}
 
     if rng.random() < 0.75:
@@ -572,7 +572,7 @@ def reclaim_window_clients(rng, msgb, total):
         clients.append(asker('C', rng.choice([0x30, 0x18, 0x40]), t_b + x))
     else:
         clients.append(asker('B', 0x20, t_b, again=x))
-    return clients, max(total, t_b + d + 900)
+    return clients, t_b + d + 650
 
 
 def gen_c19(rng, tier, skip, msgb):
